@@ -1,39 +1,19 @@
 /-
-The codec laws of `Spec.Codecs` are satisfiable: a decoder for the model's own base64
-encoder (so `b64enc` is injective and `Spec.Codecs` is inhabited), and a time decoder that
-knows one instant (the parametric theorems are instantiated with the real decoders by the
-correspondence harness; inverting `formatTime` in Lean is not attempted).
+The codec laws of `Spec.Codecs` are satisfiable, with real decoders (`Spec/Codec.lean`):
+`Spec.b64decode` inverts the model's base64 encoder (proved here) and `Spec.parseRFC3339`
+inverts `formatTime` on `Spec.TimeDom` (`Proofs/TimeCodecLemmas.lean`); `realCodecs` is
+`Spec.Codecs` instantiated with them. `codecsFor` (a time decoder that knows one instant)
+is kept for the older examples.
 -/
 import Jsonapi.Spec.RoundTrip
+import Jsonapi.Spec.Codec
+import Jsonapi.Proofs.TimeCodecLemmas
 namespace Jsonapi
 namespace RtL
+open Spec
 
-
-/-- value of a base64 (StdEncoding) alphabet byte -/
-def b64Val (c : UInt8) : Nat :=
-  let x := c.toNat
-  if 65 ≤ x ∧ x ≤ 90 then x - 65
-  else if 97 ≤ x ∧ x ≤ 122 then x - 71
-  else if 48 ≤ x ∧ x ≤ 57 then x + 4
-  else if x = 43 then 62 else 63
 
 theorem b64Val_b64Char : ∀ n, n < 64 → b64Val (b64Char n) = n ∧ b64Char n ≠ 61 := by decide
-
-/-- a decoder for what `b64enc` writes (padded StdEncoding) -/
-def b64decode : List UInt8 → Option (List UInt8)
-  | [] => some []
-  | a :: b :: c :: d :: rest =>
-    if c = 61 ∧ d = 61 ∧ rest = [] then
-      some [UInt8.ofNat ((b64Val a * 64 + b64Val b) / 16)]
-    else if d = 61 ∧ rest = [] then
-      let n := b64Val a * 4096 + b64Val b * 64 + b64Val c
-      some [UInt8.ofNat (n / 1024), UInt8.ofNat ((n / 4) % 256)]
-    else
-      let n := b64Val a * 262144 + b64Val b * 4096 + b64Val c * 64 + b64Val d
-      match b64decode rest with
-      | some r => some (UInt8.ofNat (n / 65536) :: UInt8.ofNat ((n / 256) % 256) :: UInt8.ofNat (n % 256) :: r)
-      | none => none
-  | _ => none
 
 theorem ofNat_of_eq (a : UInt8) (n : Nat) (h : n = a.toNat) : UInt8.ofNat n = a := by
   subst h; simp
@@ -84,6 +64,16 @@ def codecsFor (t0 : Time) : Spec.Codecs :=
     b64dec := b64decode
     TimeOk := fun t => t = t0
     time_law := by intro t h; subst h; simp
+    b64_law := b64decode_b64enc }
+
+/-- `Spec.Codecs` with the real decoders: RFC 3339 on `Spec.TimeDom` (local civil year
+0..9999, nanoseconds below a second, whole-minute zone strictly within a day) and padded
+StdEncoding base64. -/
+def realCodecs : Spec.Codecs :=
+  { parseTime := Spec.parseRFC3339
+    b64dec := Spec.b64decode
+    TimeOk := Spec.TimeDom
+    time_law := parseRFC3339_formatTime
     b64_law := b64decode_b64enc }
 
 end RtL
